@@ -295,6 +295,9 @@ def real_ports(ctx):
         ok = ifarg is not None and 'self.interfaces' in src(ifarg)
         ctx.check(ok, f'{run.qualname}:listener built from opened interfaces', c,
                   'ports are taken from self.interfaces', f'interface list `{src(ifarg) if ifarg is not None else None}` is not self.interfaces', run)
+        started = [x for x in calls_in(run.node) if call_name(x) == 'mkthread' and x.args and 'discovery.run' in src(x.args[0])]
+        ctx.check(bool(started), f'{run.qualname}:responder thread is started', c, 'mkthread(self.discovery.run)',
+                  'the UDPListener is constructed but its run() is never started: no discovery request is answered', run)
         if waits:
             ctx.check(all(cfg.dominates(waits, i) for i in cfg.node_of(c)), f'{run.qualname}:listener after interface start', c,
                       'constructed after the wait for interface start', 'constructed before the interfaces were started', run)
